@@ -22,6 +22,7 @@ type Frame struct {
 	depth  int
 	defers []ssa.CallCommon
 	unroll map[*ssa.BasicBlock]int
+	loopFrame map[string]string
 }
 
 func (f *Frame) clone() *Frame {
@@ -31,6 +32,12 @@ func (f *Frame) clone() *Frame {
 	}
 	for k, v := range f.inLoop {
 		n.inLoop[k] = v
+	}
+	if f.loopFrame != nil {
+		n.loopFrame = map[string]string{}
+		for k, v := range f.loopFrame {
+			n.loopFrame[k] = v
+		}
 	}
 	if f.unroll != nil {
 		n.unroll = map[*ssa.BasicBlock]int{}
@@ -439,7 +446,7 @@ func (e *Env) setIndex(st *State, v Val, idx string, nv Val, pos token.Pos) Val 
 // safety: under nopanic it is an obligation, otherwise an assumption (paths that panic are not normal returns).
 func (e *Env) safety(st *State, cond, label string, pos token.Pos) {
 	cond = foldCmp(cond)
-	if cond == "true" {
+	if cond == "true" || e.specMode > 0 {
 		return
 	}
 	if e.nopanic && e.specMode == 0 {
@@ -689,6 +696,9 @@ func (e *Env) runFrom(fr *Frame, st *State, b *ssa.BasicBlock, idx int, prev *ss
 	if e.err != nil || st.dead {
 		return nil
 	}
+	if fr.depth == 0 {
+		e.curFrame = fr
+	}
 	for i := idx; i < len(b.Instrs); i++ {
 		ins := b.Instrs[i]
 		if p := ins.Pos(); p.IsValid() {
@@ -731,7 +741,7 @@ func (e *Env) runFrom(fr *Frame, st *State, b *ssa.BasicBlock, idx int, prev *ss
 			continue
 		case *ssa.Defer:
 			// deferred calls: only dropped kinds are accepted
-			if e.isDroppedCall(&x.Call) {
+			if e.isDroppedCall(&x.Call) || e.deferDroppable(&x.Call) {
 				e.dropped["defer "+callName(&x.Call)]++
 				continue
 			}
@@ -783,6 +793,47 @@ func (e *Env) runFrom(fr *Frame, st *State, b *ssa.BasicBlock, idx int, prev *ss
 		}
 	}
 	return nil
+}
+
+// deferDroppable: a deferred closure whose body consists only of dropped (telemetry/logging) calls.
+func (e *Env) deferDroppable(c *ssa.CallCommon) bool {
+	var fn *ssa.Function
+	switch v := c.Value.(type) {
+	case *ssa.MakeClosure:
+		fn, _ = v.Fn.(*ssa.Function)
+	case *ssa.Function:
+		fn = v
+	}
+	if fn == nil || fn.Blocks == nil {
+		return false
+	}
+	for _, b := range fn.Blocks {
+		for _, ins := range b.Instrs {
+			switch x := ins.(type) {
+			case ssa.CallInstruction:
+				cc := x.Common()
+				n := callName(cc)
+				if droppedName(n) {
+					continue
+				}
+				// pure getters used to build telemetry labels
+				if cc.IsInvoke() {
+					switch cc.Method.Name() {
+					case "ClientType", "String", "GetLatestHeight":
+						continue
+					}
+				}
+				return false
+			case *ssa.Store:
+				if _, isFree := x.Addr.(*ssa.FreeVar); isFree {
+					return false
+				}
+			case *ssa.Go, *ssa.Send, *ssa.Panic:
+				return false
+			}
+		}
+	}
+	return true
 }
 
 func (e *Env) assignPhis(fr *Frame, st *State, b, prev *ssa.BasicBlock) {
